@@ -54,7 +54,10 @@ def lists_of(text: str) -> list[dict]:
 
 HEADINGS = ["# **All bold**", "## ***Bold italic***", "### **Partly** bold", "# **A** and **B**", "#### *italic only*", "# **bold `code` [l](u)**",
             "**Setext bold**\n===", "***Setext both***\n---", "# plain", "##### **bold**trailing", "# ** not bold **", "## __Underscore bold__", "# **x** ",
-            "- # **in item**", "> ## **in quote**", "[^n]: # **in note**", "# ~~**struck bold**~~", "# [**link bold**](u)"]
+            "- # **in item**", "> ## **in quote**", "[^n]: # **in note**", "# ~~**struck bold**~~", "# [**link bold**](u)",
+            # italic spans that merely start or end with a bold span, several bold spans, bold holding italic
+            "# ***bold** more*", "# *__bold__ more*", "# *more **bold***", "## ***a** b **c***", "# **bold *and italic***", "# ***a*** ***b***",
+            "*__Setext bold__ more*\n---", "# _**x**_", "# **_x_**", "# *`code` **b***"]
 
 
 def gen_heading_doc(rng) -> str:
